@@ -98,11 +98,18 @@ pub fn decimal_point_or_empty(precision: usize, alternate_form: bool) -> &'stati
     }
 }
 
+/// A finite `f64` has at most 1074 digits after the decimal point and fewer than 1100 significant
+/// decimal digits: every digit requested beyond that is a zero. `format!` takes a precision of at
+/// most `u16::MAX` (and panics above it), so only this many digits are asked of it.
+const MAX_FLOAT_DIGITS: usize = 1100;
+
 pub fn format_fixed(precision: usize, magnitude: f64, case: Case, alternate_form: bool) -> String {
     match magnitude {
         magnitude if magnitude.is_finite() => {
             let point = decimal_point_or_empty(precision, alternate_form);
-            format!("{magnitude:.precision$}{point}")
+            let digits = precision.min(MAX_FLOAT_DIGITS);
+            let zeros = "0".repeat(precision - digits);
+            format!("{magnitude:.digits$}{zeros}{point}")
         }
         magnitude if magnitude.is_nan() => format_nan(case),
         magnitude if magnitude.is_infinite() => format_inf(case),
@@ -120,7 +127,9 @@ pub fn format_exponent(
 ) -> String {
     match magnitude {
         magnitude if magnitude.is_finite() => {
-            let r_exp = format!("{magnitude:.precision$e}");
+            let digits = precision.min(MAX_FLOAT_DIGITS);
+            let zeros = "0".repeat(precision - digits);
+            let r_exp = format!("{magnitude:.digits$e}");
             let mut parts = r_exp.splitn(2, 'e');
             let base = parts.next().unwrap();
             let exponent = parts.next().unwrap().parse::<i64>().unwrap();
@@ -129,7 +138,7 @@ pub fn format_exponent(
                 Case::Upper => 'E',
             };
             let point = decimal_point_or_empty(precision, alternate_form);
-            format!("{base}{point}{e}{exponent:+#03}")
+            format!("{base}{zeros}{point}{e}{exponent:+#03}")
         }
         magnitude if magnitude.is_nan() => format_nan(case),
         magnitude if magnitude.is_infinite() => format_inf(case),
@@ -177,7 +186,9 @@ pub fn format_general(
     let precision = precision.max(1);
     match magnitude {
         magnitude if magnitude.is_finite() => {
-            let r_exp = format!("{:.*e}", precision.saturating_sub(1), magnitude);
+            let digits = (precision - 1).min(MAX_FLOAT_DIGITS);
+            let zeros = "0".repeat(precision - 1 - digits);
+            let r_exp = format!("{magnitude:.digits$e}");
             let mut parts = r_exp.splitn(2, 'e');
             let base = parts.next().unwrap();
             let exponent = parts.next().unwrap().parse::<i64>().unwrap();
@@ -186,13 +197,13 @@ pub fn format_general(
                     Case::Lower => 'e',
                     Case::Upper => 'E',
                 };
-                let magnitude = format!("{:.*}", precision + 1, base);
+                let magnitude = format!("{:.*}{zeros}", digits + 2, base);
                 let base = maybe_remove_trailing_redundant_chars(magnitude, alternate_form);
                 let point = decimal_point_or_empty(precision.saturating_sub(1), alternate_form);
                 format!("{base}{point}{e}{exponent:+#03}")
             } else {
                 let precision = ((precision as i64) - 1 - exponent) as usize;
-                let magnitude = format!("{magnitude:.precision$}");
+                let magnitude = format_fixed(precision, magnitude, case, false);
                 let base = maybe_remove_trailing_redundant_chars(magnitude, alternate_form);
                 let point = decimal_point_or_empty(precision, alternate_form);
                 format!("{base}{point}")
